@@ -20,7 +20,7 @@
 \* id 0 means no schedule.
 EXTENDS Integers, Sequences, FiniteSets, TLC
 
-CONSTANTS JCs, Horizon, Ids, Windows, MaxMissed, MaxDown, MaxOps, MaxLag, MaxFaults, MaxRestarts, MaxTick, Pols, PreBoot, WithRecon
+CONSTANTS JCs, Horizon, Ids, Windows, MaxMissed, MaxDown, MaxOps, MaxLag, MaxFaults, MaxRestarts, MaxTick, Pols, PreBoot, WithRecon, Workers
 
 VARIABLES now, booted, api, cache, evq, addch, updch, heap, wq, retry, sync, jobs, jcache, jevq,
           ops, faults, restarts, uidc,
@@ -50,12 +50,12 @@ InitRef(o, n) == LET a == IF o.ls # None THEN Max2(o.ls, n - MaxDown) ELSE n
 SchedOf(o) == <<o.id, o.dis, o.nbf, o.naf>>     \* what IsScheduleEqual compares besides lastUpdated
 HasSched(o) == o.ex /\ o.id # 0
 
-Idle == [busy |-> FALSE, jc |-> 0, t |-> 0, stage |-> "none"]
+Idle == [busy |-> FALSE, jc |-> 0, t |-> 0, stage |-> "none", uid |-> 0]
 
 Init == /\ now = 0 /\ booted = FALSE
         /\ api = [j \in JCs |-> Absent] /\ cache = [j \in JCs |-> Absent]
         /\ evq = <<>> /\ addch = <<>> /\ updch = <<>> /\ heap = [j \in JCs |-> None]
-        /\ wq = {} /\ retry = {} /\ sync = Idle /\ jobs = {} /\ jcache = {} /\ jevq = <<>>
+        /\ wq = {} /\ retry = {} /\ sync = [w \in Workers |-> Idle] /\ jobs = {} /\ jcache = {} /\ jevq = <<>>
         /\ ops = 0 /\ faults = 0 /\ restarts = 0 /\ uidc = 0
         /\ lo = [j \in JCs |-> 0] /\ req = [j \in JCs |-> 0] /\ lastfired = <<>> /\ reqs = {} /\ ever = {} /\ act = "Init"
 
@@ -148,7 +148,7 @@ Boot0(n) == [j \in JCs |-> IF Enabled(api[j]) THEN NextAfter(api[j], InitRef(api
 RECURSIVE AddsOf(_)
 AddsOf(S) == IF S = {} THEN <<>> ELSE LET j == Min(S) IN <<[jcid |-> j, obj |-> api[j]]>> \o AddsOf(S \ {j})
 Start == /\ cache' = api /\ evq' = <<>> /\ jcache' = jobs /\ jevq' = <<>>
-         /\ addch' = AddsOf({j \in JCs : api[j].ex}) /\ updch' = <<>> /\ wq' = {} /\ retry' = {} /\ sync' = Idle
+         /\ addch' = AddsOf({j \in JCs : api[j].ex}) /\ updch' = <<>> /\ wq' = {} /\ retry' = {} /\ sync' = [w \in Workers |-> Idle]
          /\ heap' = Boot0(now)
          /\ lo' = [j \in JCs |-> IF api[j].ex THEN InitRef(api[j], now) ELSE now] /\ req' = lo'
          /\ lastfired' = <<>> /\ reqs' = {}
@@ -160,23 +160,24 @@ Restart == /\ booted /\ restarts < MaxRestarts /\ restarts' = restarts + 1 /\ St
 \* ---- cron Reconciler
 RetryFire(k) == /\ k \in retry /\ retry' = retry \ {k} /\ wq' = wq \cup {k}
                 /\ UNCHANGED <<now, booted, api, cache, evq, addch, updch, heap, sync, jobs, jcache, jevq, ops, faults, restarts, uidc, lo, req, lastfired, reqs, ever>>
-SyncBegin(k) ==
-    /\ ~sync.busy /\ k \in wq /\ wq' = wq \ {k}
+\* several reconciler workers take keys from the one work-queue (a key is held by at most one worker)
+SyncBegin(k, w) ==
+    /\ ~sync[w].busy /\ k \in wq /\ wq' = wq \ {k}
     /\ LET j == k[1]  t == k[2]  o == cache[j] IN
        IF ~o.ex \/ (\E x \in jcache : x.jc = j /\ x.t = t)
-       THEN sync' = Idle                                                    \* JobConfig gone, or Job already in the cache: done
-       ELSE sync' = [busy |-> TRUE, jc |-> j, t |-> t, stage |-> "create", uid |-> o.uid]
+       THEN sync' = sync                                                    \* JobConfig gone, or Job already in the cache: done
+       ELSE sync' = [sync EXCEPT ![w] = [busy |-> TRUE, jc |-> j, t |-> t, stage |-> "create", uid |-> o.uid]]
     /\ UNCHANGED <<now, booted, api, cache, evq, addch, updch, heap, retry, jobs, jcache, jevq, ops, faults, restarts, uidc, lo, req, lastfired, reqs, ever>>
-Step(f) ==
-    /\ sync.busy
-    /\ LET j == sync.jc  t == sync.t  x == [jc |-> j, t |-> t, uid |-> sync.uid]
+Step(f, w) ==
+    /\ sync[w].busy
+    /\ LET j == sync[w].jc  t == sync[w].t  x == [jc |-> j, t |-> t, uid |-> sync[w].uid]
            exists == \E y \in jobs : y.jc = j /\ y.t = t
        IN /\ IF f = "ok" /\ ~exists
              THEN /\ jobs' = jobs \cup {x} /\ jevq' = Append(jevq, [k |-> "add", x |-> x]) /\ retry' = retry /\ faults' = faults /\ ever' = ever \cup {<<j, t>>}
              ELSE /\ (f = "ok" \/ faults < MaxFaults)
                   /\ faults' = IF f = "ok" THEN faults ELSE faults + 1
                   /\ retry' = retry \cup {<<j, t>>} /\ UNCHANGED <<jobs, jevq, ever>>   \* AlreadyExists or injected error: rate-limited requeue
-    /\ sync' = Idle
+    /\ sync' = [sync EXCEPT ![w] = Idle]
     /\ UNCHANGED <<now, booted, api, cache, evq, addch, updch, heap, wq, jcache, ops, restarts, uidc, lo, req, lastfired, reqs>>
 
 A(name) == act' = name
@@ -186,8 +187,8 @@ Next == \/ \E j \in JCs, id \in Ids, dis \in BOOLEAN, w \in Windows, pol \in Pol
         \/ \E x \in jobs : JobGone(x) /\ A("JobGone")
         \/ (DeliverJC /\ A("DeliverJC")) \/ (DeliverJob /\ A("DeliverJob")) \/ (Work /\ A("Work")) \/ (Boot /\ A("Boot")) \/ (Restart /\ A("Restart"))
         \/ \E k \in retry : RetryFire(k) /\ A("RetryFire")
-        \/ \E k \in wq : SyncBegin(k) /\ A("SyncBegin")
-        \/ \E f \in {"ok", "error"} : Step(f) /\ A("Step")
+        \/ \E k \in wq, w \in Workers : SyncBegin(k, w) /\ A("SyncBegin")
+        \/ \E f \in {"ok", "error"}, w \in Workers : Step(f, w) /\ A("Step")
 Spec == Init /\ [][Next]_vars
 
 \* ---------------------------------------------------------------- properties
@@ -219,7 +220,7 @@ C04_BootHeap == [][act' \in {"Boot", "Restart"} =>
                                       /\ (Due(api[j]) = {} => heap'[j] = None)]_vars
 C02_AtMostOne == \A x, y \in jobs : (x.jc = y.jc /\ x.t = y.t) => x = y
 C02_Requested == \A x \in jobs : x.t <= now
-Quiescent == booted /\ evq = <<>> /\ jevq = <<>> /\ addch = <<>> /\ updch = <<>> /\ wq = {} /\ retry = {} /\ ~sync.busy
+Quiescent == booted /\ evq = <<>> /\ jevq = <<>> /\ addch = <<>> /\ updch = <<>> /\ wq = {} /\ retry = {} /\ \A w \in Workers : ~sync[w].busy
 \* C02 / C20 goal: at quiescence every request of this controller generation has (or had) its Job, unless its JobConfig is gone or replaced
 C20_Served == Quiescent => \A r \in reqs : \/ <<r.jc, r.t>> \in ever
                                             \/ ~api[r.jc].ex \/ api[r.jc].uid # r.uid
